@@ -59,13 +59,13 @@ CUT_DIST = [0.05, 0.3, 1]
 CUT_INTER = [0, 0.7, 1]
 MAX_PASSES = [0, 1, 2, 10 ** 7]
 CACHE = [0, 1, 50, 5000]
-THRS = [0, 0.33, 0.9]
+THRS = [0, 0.33, 0.9, 1]       # 1: the strict '<' of the deeper-threshold test matters exactly there
 REPS = [False, True]
 ALL_KNOBS = [dict(cutoff_distance_for_pairs=a, cutoff_intersection_for_pairs=b, max_passes=c, cache_size=d,
                   threshold_to_diff_deeper=e, report_repetition=f)
              for a in CUT_DIST for b in CUT_INTER for c in MAX_PASSES for d in CACHE for e in THRS for f in REPS]
 
-STRS = V.STR_POOL + ["a\nb", "a\nc", "NONE", "int:1", "bool:true", "__p", "list:"]
+STRS = V.STR_POOL + ["a\nb", "a\nc", "a\nb\n", "a\r\nb", "a\nb\r\n", "a\n", "\n", "NONE", "int:1", "bool:true", "__p", "list:"]
 
 
 # ---------------------------------------------------------------------------
@@ -553,6 +553,61 @@ FIXED_FINDINGS = [
 # correspondence
 # ---------------------------------------------------------------------------
 
+LINE_VARIANTS = [("a\nb", "a\nb\n"), ("a\nb", "a\r\nb"), ("a\nb\n", "a\nb\r\n"), ("x\n", "x"), ("\n", ""), ("a\n\nb", "a\nb"),
+                 ("a\nb", "a\nc"), (b"a\nb", b"a\nb\n")]
+
+
+def special_pairs(rng, n):
+    """shapes the random generators hit too rarely:
+    (a) an atom repeated across nesting levels, [a, [a, b]] against [a, [b]] (and equal variants);
+    (b) multi-line strings that differ only in line terminators, at leaves of items that get paired;
+    (c) dicts with identical key sets (threshold_to_diff_deeper = 1 must still look inside)"""
+    out = []
+    atoms = [7, 0, 1, "a", "ab", None, 2.5, True]
+    for _ in range(n):
+        a = rng.choice(atoms)
+        rest = [rng.choice(atoms + [8, 9, "b"]) for _ in range(rng.randint(1, 3))]
+        inner1 = [a] + rest
+        inner2 = list(rest) if rng.random() < 0.7 else list(reversed(inner1))
+        item1, item2 = [a, inner1], [a, inner2]
+        if rng.random() < 0.4:
+            item1, item2 = (a, tuple(inner1)), (a, tuple(inner2))
+        if rng.random() < 0.3:
+            item1, item2 = [a, [a, inner1]], [a, [a, inner2]]
+        pad = [rng.choice(["p", "q", 3, 4]) for _ in range(rng.randint(0, 3))]
+        t1, t2 = [item1] + pad, list(reversed(pad)) + [item2]
+        if rng.random() < 0.3:
+            t1, t2 = {"k": t1, "n": 1}, {"n": 1, "k": t2}
+        out.append((t1, t2))
+    for _ in range(n):
+        s1, s2 = rng.choice(LINE_VARIANTS)
+        if rng.random() < 0.5:
+            s1, s2 = s2, s1
+        common = [rng.choice(["c", "d", 5, 6, "e"]) for _ in range(rng.randint(2, 4))]
+        shape = rng.random()
+        if shape < 0.4:
+            t1, t2 = [[s1] + common, "z", 9], [9, "z", list(reversed(common)) + [s2]]
+        elif shape < 0.6:
+            t1, t2 = {"k": s1, "x": common}, {"x": list(reversed(common)), "k": s2}
+        elif shape < 0.8:
+            t1, t2 = [{"t": s1, "c": common}, 1, 2, 3], [3, 2, 1, {"c": common, "t": s2}]
+        else:
+            t1, t2 = [(s1, 1, 2, 3), "z"], ["z", (s2, 1, 2, 3)]
+        out.append((t1, t2))
+    for _ in range(n):
+        keys = rng.sample(["a", "b", "c", 1, 2, None, 2.5], rng.randint(2, 4))
+        d1 = {k: rng.choice([1, "x", [1, 2, 3], [3, [1, 2]], {"u": 1, "v": [1, 2]}]) for k in keys}
+        d2 = {k: rebuild(d1[k], rng) for k in reversed(keys)}
+        if rng.random() < 0.4:
+            k = rng.choice(keys)
+            d2[k] = rng.choice([0, "y", [1, 2, 4]])
+        if rng.random() < 0.5:
+            out.append((d1, d2))
+        else:
+            out.append(([d1, 5, 6], [6, d2, 5]))
+    return out
+
+
 FULL_KNOBS = [
     dict(cutoff_intersection_for_pairs=0),
     dict(max_passes=0),
@@ -579,8 +634,8 @@ def _full_task(args):
     t1, t2 = from_repr(t1r), from_repr(t2r)
     out = []
     for rep in REPS:
-        for thr in (0, 0.33):
-            for kn in FULL_KNOBS:
+        for thr in (0, 0.33, 1, 1.0):
+            for kn in (FULL_KNOBS if thr in (0, 0.33) and thr is not True else (FULL_KNOBS[:3] if isinstance(thr, int) else FULL_KNOBS[2:4])):
                 kw = dict(kn, report_repetition=rep, threshold_to_diff_deeper=thr)
                 obs, rec, unmod = run_tree(t1, t2, **kw)
                 if isinstance(obs, Exception):
@@ -924,7 +979,7 @@ def run(ctx):
     rng = ctx.rng
     sys.setrecursionlimit(10000)
     n_full = 160 if ctx.thorough else 28
-    n_grid = 60 if ctx.thorough else 6
+    n_grid = 60 if ctx.thorough else 5
     n_rand = 1500 if ctx.thorough else 180
     replay_witnesses(ctx)
     gen = []
@@ -944,6 +999,8 @@ def run(ctx):
         if V.contains_alias(a, b):
             alias_full.append((a, b))
     full += alias_full
+    specials = special_pairs(rng, 24 if ctx.thorough else 5)
+    full += [(a, b) for a, b in specials if not V.contains_alias(a, b)]
     for a, b in full[:2] + full[len(FIXED_PAIRS):len(FIXED_PAIRS) + 2]:
         ctx.sample({"t1": repr(a), "t2": repr(b)})
     with mp.get_context("fork").Pool(core.NCPU) as pool:
@@ -955,6 +1012,9 @@ def run(ctx):
         # guard-boundary inputs (aliasing atoms, tag-like strings): every failure must be a known finding
         for a, b in FIXED_FINDINGS + FIXED_TIMES:
             jobs.append((a, b, rng.sample(ALL_KNOBS, 12)))
+        thr1 = [k for k in ALL_KNOBS if k["threshold_to_diff_deeper"] == 1]
+        for a, b in specials + special_pairs(rng, 40 if ctx.thorough else 10):
+            jobs.append((a, b, rng.sample(ALL_KNOBS, 10) + rng.sample(thr1, 4) + [dict(threshold_to_diff_deeper=1.0), dict(threshold_to_diff_deeper=1.0, report_repetition=True)]))
         n_alias = 0
         while n_alias < (300 if ctx.thorough else 60):
             a, b, _k = gen_pair(rng, alias=True, depth=3)
